@@ -39,6 +39,13 @@ for path in sorted(glob.glob("seeded/*/meta.json")):
     rows.append(f"| `{d}/` | {m['property']} | {', '.join(m['files_changed'])} | {m['verified']['existing_tests_with_change'].split(',')[0]} | {m['verified']['demo_exit_unchanged_tree']} / {m['verified']['demo_exit_with_change']} | {'yes' if oc['caught_by_quick'] else 'NO'}{note} | {', '.join('`'+b+'`' for b in oc['buckets'][:3])}{' …' if len(oc['buckets'])>3 else ''} |")
 put("SEEDED", f"{total} independently seeded changes (one sub-agent per pair of properties, given only the property text and a scratch worktree); {caught} are caught by the quick tier of the property's check.\n\n" + "\n".join(rows))
 
+miss = []
+for path in sorted(glob.glob("seeded/*/meta.json")):
+    m = json.load(open(path)); oc = m["our_check"]
+    if oc.get("caught_by_quick_initially") is False:
+        miss.append(f"* **{os.path.basename(os.path.dirname(path))}** ({'caught now' if oc['caught_by_quick'] else 'STILL MISSED'}): {oc.get('note', '')}")
+put("MISSES", "\n".join(miss) if miss else "(none)")
+
 # ---- check sizes ----------------------------------------------------------
 rows = ["| Check | Level | Evaluations (quick) | Distinct non-trivial | Wall s (quick, this run) | Technique |", "|---|---|---|---|---|---|"]
 import importlib, sys
